@@ -15,20 +15,23 @@ namespace OntVerif.Model.Participant
 /-- `math.MaxUint32`: returned by `calcParticipant` for `k ≥ 512`; `calcParticipantPeers` stops when it sees it -/
 def maxU32 : Nat := 4294967295
 
-/-- `calcParticipant(vrf, dposTable, k)`; `vrf i` is byte `i` of the 64-byte seed (`VRFValue`), reduced mod 256.
-All intermediate values fit 32 bits (`v < 2^16`), so the `uint32` arithmetic never wraps; kept as `% 2^32` anyway. -/
-def calcParticipant (vrf : Nat → Nat) (pos : List Nat) (k : Nat) : Nat :=
+/-- the 16-bit value `v` that `calcParticipant` takes from the seed at bit offset `k < 512` (before `% len(dposTable)`);
+`vrf i` is byte `i` of the 64-byte seed (`VRFValue`), reduced mod 256. All intermediate values fit 32 bits
+(`v < 2^16`), so the `uint32` arithmetic never wraps; kept as `% 2^32` anyway. -/
+def pickValue (vrf : Nat → Nat) (k : Nat) : Nat :=
   let bIdx := k / 8
   let bits1 := k % 8
   let bits2 := 8 + bits1
+  let v1 := (vrf bIdx % 256) >>> bits1
+  let v2 := if bIdx + 1 < 64 then vrf (bIdx + 1) % 256 else vrf 0 % 256
+  let v2 := v2 &&& ((1 <<< bits2) % 4294967296 - 1)
+  ((v2 <<< (8 - bits1)) % 4294967296 + v1) % 4294967296
+
+/-- `calcParticipant(vrf, dposTable, k)` -/
+def calcParticipant (vrf : Nat → Nat) (pos : List Nat) (k : Nat) : Nat :=
   if k ≥ 512 then maxU32
-  else
-    let v1 := (vrf bIdx % 256) >>> bits1
-    let v2 := if bIdx + 1 < 64 then vrf (bIdx + 1) % 256 else vrf 0 % 256
-    let v2 := v2 &&& ((1 <<< bits2) % 4294967296 - 1)
-    let v := ((v2 <<< (8 - bits1)) % 4294967296 + v1) % 4294967296
-    if h : 0 < pos.length then pos[v % pos.length]'(Nat.mod_lt _ h)
-    else maxU32      -- Go: division by zero; unreachable from calcParticipantPeers (its loop runs `len(PosTable)` times)
+  else if h : 0 < pos.length then pos[pickValue vrf k % pos.length]'(Nat.mod_lt _ h)
+  else maxU32      -- Go: division by zero; unreachable from calcParticipantPeers (its loop runs `len(PosTable)` times)
 
 /-- step 1 of `calcParticipantPeers`: `for i := 0; i < len(PosTable); i++` collecting distinct picks in order of first
 appearance; stops at the sentinel, or when more than `limit = (c+1)+2(2c+1)` peers or exactly `N` peers were found.
@@ -98,5 +101,20 @@ def calcParticipantPeersOf (pick : Nat → Nat) (posLen c N : Nat) (peers : List
 
 def calcParticipantPeers (vrf : Nat → Nat) (pos : List Nat) (c N : Nat) (peers : List Nat) : Option Sel :=
   calcParticipantPeersOf (calcParticipant vrf pos) pos.length c N peers
+
+/-! ### which configurations does the code accept?
+
+`governance.CheckVBFTConfig` (genesis / initConfig), `governance.UpdateConfig` and `vconfig.genConsensusPayload` all test
+`C ≠ 0` and `K ≥ 2C+1` (plus `K ≥ 7` in the governance contract) — not the BFT bound `K ≥ 3C+1` that participant selection
+(and quorum intersection, C28) needs. `asShipped` mirrors the code, `sound` adds the missing bound. -/
+
+inductive Variant | asShipped | sound
+  deriving DecidableEq, Repr
+
+/-- the part of `CheckVBFTConfig` that concerns `K`, `C` and the peer indexes (the harness fixes `N = K`, `L = 16K` and
+valid delays, keys and addresses): `C ≠ 0`, `K = len(Peers)`, `K ≥ 2C+1`, `K ≥ 7`, indexes distinct and `> 0` -/
+def checkConfig (v : Variant) (K C : Nat) (peers : List Nat) : Bool :=
+  decide (C ≠ 0 ∧ K = peers.length ∧ ¬ K < 2 * C + 1 ∧ ¬ K < 7 ∧ peers.Nodup ∧ (∀ x ∈ peers, 0 < x) ∧
+    (v = .sound → 3 * C + 1 ≤ K))
 
 end OntVerif.Model.Participant
